@@ -493,6 +493,14 @@ func factSpellings(t string, truth bool) [][2]interface{} {
 			m = " < "
 		}
 		out = append(out, [2]interface{}{r + m + l, truth})
+		// … and against the neighbouring integer: x < k is !(x > k-1), x > k is !(x < k+1)
+		if k, err := strconv.ParseInt(r, 0, 64); err == nil {
+			if op == " < " {
+				out = append(out, [2]interface{}{l + " > " + strconv.FormatInt(k-1, 10), !truth})
+			} else {
+				out = append(out, [2]interface{}{l + " < " + strconv.FormatInt(k+1, 10), !truth})
+			}
+		}
 	}
 	return out
 }
